@@ -90,6 +90,9 @@ def check_day(ctx, day, tod):
         eq('uk %r' % uk_u, lambda: dt(uk_u), D)
         eq('us %r' % us_p, lambda: dt(us_p, dialect='us'), D)
         eq('us %r' % us_u, lambda: dt(us_u, dialect='us'), D)
+        eq('US %r' % us_p, lambda: dt(us_p, dialect='US'), D)          # the dialect as the docstring spells it
+        if d > 12:
+            rej('uk-string %r read as US' % uk_p, lambda: dt(uk_p, dialect='US'))
         if d > 12:
             rej('uk-string %r read as us' % uk_p, lambda: dt(uk_p, dialect='us'))
             rej('us-string %r read as uk' % us_p, lambda: dt(us_p))
